@@ -403,10 +403,12 @@ def _o_preload(pair):
             "foo": types.SimpleNamespace(path=pair.good_eclass),
             "foo2": types.SimpleNamespace(path=pair.good_eclass),
         })  # fmt: skip
+        ebp.get_keys(pair._pkg(pair.meta_ebuild(["ok"])), pair.ecache)  # caches the metadata path
         ebp.preload_eclasses(ec, async_req=True)
+        # the batch is still outstanding when generic_handler starts
         ebp.get_keys(pair._pkg(pair.meta_ebuild(["ok"])), pair.ecache)
 
-    return _ordinary(pair, body, 3)
+    return _ordinary(pair, body, 4)
 
 
 def _o_sigterm(pair):
